@@ -60,6 +60,10 @@ static uint64_t *g_outcomes; static size_t g_outcap, g_outn;
 static int g_completed_bound = -1, g_hit_cap;
 static char g_first_violation[4096];
 static char g_first_replay[512];
+static int g_keep_going;
+#define MAXVIOL 12
+static struct { char what[1024]; char replay[300]; uint64_t count; } g_viol[MAXVIOL];
+static int g_nviol;
 static char g_samples[3][2048]; static int g_nsamples;
 
 static double now_s(void)
@@ -353,13 +357,29 @@ static void finish_slot(int s, int status, int timedout)
 		if (st_inconclusive <= 3) printf("INCONCLUSIVE harness=%s variant=%d: %s\n", g_h->name, g_variant, what);
 	} else if (cls == RS_VIOLATION) {
 		st_violations++;
-		want_recheck = 1;
-		if (st_violations == 1) {
-			write_replay(w, r, what, g_first_replay, sizeof g_first_replay);
-			snprintf(g_first_violation, sizeof g_first_violation, "%s", what);
-			// keep the captured stderr next to the replay file
-			char cmd[1024]; snprintf(cmd, sizeof cmd, "cp %s %s.stderr 2>/dev/null", sl->errpath, g_first_replay);
+		// distinct violation messages (digits folded so that event numbers do not split classes)
+		char norm[1024]; size_t o = 0;
+		for (const char *c = what; *c && o + 1 < sizeof norm; c++) {
+			if (*c >= '0' && *c <= '9') { if (o && norm[o - 1] == '#') continue; norm[o++] = '#'; }
+			else norm[o++] = *c;
+		}
+		norm[o] = 0;
+		int known = -1;
+		for (int i = 0; i < g_nviol; i++) if (!strcmp(g_viol[i].what + 512, norm)) known = i;
+		if (known >= 0) g_viol[known].count++;
+		else if (g_nviol < MAXVIOL) {
+			want_recheck = 1;
+			snprintf(g_viol[g_nviol].what, 512, "%s", what);
+			snprintf(g_viol[g_nviol].what + 512, 512, "%s", norm);
+			write_replay(w, r, what, g_viol[g_nviol].replay, sizeof g_viol[g_nviol].replay);
+			char cmd[1024]; snprintf(cmd, sizeof cmd, "cp %s %s.stderr 2>/dev/null", sl->errpath, g_viol[g_nviol].replay);
 			if (system(cmd)) { }
+			g_viol[g_nviol].count = 1;
+			if (g_nviol == 0) {
+				snprintf(g_first_replay, sizeof g_first_replay, "%s", g_viol[0].replay);
+				snprintf(g_first_violation, sizeof g_first_violation, "%s", what);
+			}
+			g_nviol++;
 		}
 	}
 	if (cls == RS_OK || cls == RS_VIOLATION) {
@@ -439,6 +459,7 @@ static int do_replay(const char *file, int trace)
 	}
 	g_h = find_harness(hname);
 	if (!g_h) { fprintf(stderr, "unknown harness %s\n", hname); return 2; }
+	if (g_h->nvariants) (void)g_h->nvariants();
 	g_variant = (int)json_int(doc, "variant", 0);
 	long ncpu = json_int(doc, "ncpu", 2);
 	const char *cur = getenv("VX_NCPU");
@@ -521,11 +542,13 @@ int main(int argc, char **argv)
 		else if (!strcmp(argv[i], "--child-timeout") && i + 1 < argc) g_child_timeout_s = atof(argv[++i]);
 		else if (!strcmp(argv[i], "--replay-dir") && i + 1 < argc) g_replay_dir = argv[++i];
 		else if (!strcmp(argv[i], "--json") && i + 1 < argc) jsonout = argv[++i];
+		else if (!strcmp(argv[i], "--keep-going")) g_keep_going = 1;
 		else usage();
 	}
 	if (!hname) usage();
 	g_h = find_harness(hname);
 	if (!g_h) { fprintf(stderr, "unknown harness %s\n", hname); return 2; }
+	if (g_h->nvariants) (void)g_h->nvariants();   // build program tables once, children inherit them
 	if (g_K > MAXK) g_K = MAXK;
 	if (g_J > MAXJ) g_J = MAXJ;
 	if (g_J < 1) g_J = 1;
@@ -546,7 +569,7 @@ int main(int argc, char **argv)
 		for (int s = 0; s < g_J && (!stopped_early || g_rq.n); s++) {
 			if (g_slot[s].pid) continue;
 			if (g_rq.n) { launch(s, g_rq.v[--g_rq.n]); running++; continue; }
-			if (st_violations || g_rc) break;          // stop at the first violation
+			if ((st_violations && !g_keep_going) || g_rc) break;          // stop at the first violation
 			if (st_exec + (uint64_t)running >= g_maxexec || now_s() - t0 > g_deadline_s) { g_hit_cap = 1; stopped_early = 1; break; }
 			int level; work *w = pop(&level);
 			if (!w) break;
@@ -563,13 +586,13 @@ int main(int argc, char **argv)
 			finish_slot(map[i], rp.status, rp.timedout); running--;
 		}
 		// completed bound bookkeeping
-		if (!st_violations && !g_rc) {
+		if ((!st_violations || g_keep_going) && !g_rc) {
 			int lo = lowest_pending_level();
 			if (lo - 1 > g_completed_bound) g_completed_bound = lo - 1 > g_K ? g_K : lo - 1;
 		}
-		if ((st_violations || g_rc || stopped_early) && running == 0) stop = 1;
+		if (((st_violations && !g_keep_going) || g_rc || stopped_early) && running == 0) stop = 1;
 	}
-	if (!st_violations && !g_rc && !stopped_early) g_completed_bound = g_K;
+	if ((!st_violations || g_keep_going) && !g_rc && !stopped_early) g_completed_bound = g_K;
 	stop_forkers();
 	for (int s = 0; s < g_J; s++) unlink(g_slot[s].errpath);
 	double wall = now_s() - t0;
@@ -594,6 +617,11 @@ int main(int argc, char **argv)
 			(unsigned long long)st_rechecks, (unsigned long long)st_violations, (unsigned long long)st_inconclusive,
 			g_completed_bound, exhaustive ? "true" : "false", g_hit_cap ? "true" : "false", wall, viol, g_first_replay);
 	for (int i = 0; i < g_nsamples; i++) fprintf(jf, "%s%s", i ? ", " : "", g_samples[i]);
+	fprintf(jf, "], \"violation_list\": [");
+	for (int i = 0; i < g_nviol; i++) {
+		char e[2048]; json_escape(g_viol[i].what, e, sizeof e);
+		fprintf(jf, "%s{\"what\": \"%s\", \"replay\": \"%s\", \"count\": %llu}", i ? ", " : "", e, g_viol[i].replay, (unsigned long long)g_viol[i].count);
+	}
 	fprintf(jf, "]}\n");
 	if (jf != stdout) fclose(jf);
 	if (g_rc) return g_rc;
